@@ -38,9 +38,12 @@ def units_of(w):
 def run_case(ctx, i, rng):
     res = Result()
     style = M.Style(rng)
-    w = M.gen_workspace(rng, style=style, tight=rng.random() < 0.3, split_files=rng.random() < 0.8)
+    labeldo = rng.random() < 0.5  # labelled DO ... CONTINUE loops, also nested with a shared terminal label (F2018-deleted, hence -std=gnu)
+    w = M.gen_workspace(rng, style=style, tight=rng.random() < 0.3, split_files=rng.random() < 0.8, labeldo=labeldo)
+    if labeldo:
+        res.count("labelled_do_workspaces")
     if M.have_gfortran():
-        ok, err = M.gfortran_check(w.files, w.order)
+        ok, err = M.gfortran_check(w.files, w.order, std="gnu" if labeldo else "f2018")
         if not ok:
             res.count("generator_rejects")
             return res
